@@ -69,6 +69,10 @@ def generate(rng, tier):
         ap = i % 3 == 2
         prior = [{"append": ap, "final": True, "rows": gen_rows(rng), "kill_frac": None, "qv": "limit 10 "}]
         hist.append({"prior": prior, "last": {"append": ap, "final": rng.random() < 0.7, "rows": gen_rows(rng), "qv": rng.choice(["limit 20 ", "limit 99 "])}})
+    # append through a symbolic link to a missing / an empty file: the header is still written exactly once
+    for i, link in enumerate(["dangling", "empty"] * (1 if tier == "quick" else 6)):
+        hist.append({"prior": [], "last": {"append": True, "final": True, "rows": gen_rows(rng) or [["g0", "3"]]}, "link": link})
+        hist.append({"prior": [{"append": True, "final": True, "rows": [["g0", "3"]], "kill_frac": None}], "last": {"append": True, "final": True, "rows": gen_rows(rng)}, "link": link})
     # corpus: torn append header
     hist.insert(0, {"prior": [{"append": True, "final": True, "rows": [["g0", "3"]], "kill_frac": 0.3}], "last": {"append": True, "final": True, "rows": [["g1", "7"]]}})
     _state["hist"] = hist
@@ -86,25 +90,31 @@ def run_impl(cases, tier):
         d0 = os.path.join(base, "h%04d_0" % hi)
         shutil.rmtree(d0, ignore_errors=True)
         os.makedirs(d0)
+        if h.get("link"):
+            # the outfile is reached through a symbolic link (current.csv -> data/stats-<date>.csv) whose target is missing or empty
+            os.makedirs(os.path.join(d0, "data"))
+            os.symlink("data/real.csv", os.path.join(d0, "out.csv"))
+            if h["link"] == "empty":
+                open(os.path.join(d0, "data", "real.csv"), "w").close()
         for r in h["prior"]:
             rc, steps, _ = run_write(d0, r["append"], r["final"], r["rows"], 0, r.get("qv", "")) if r["kill_frac"] is None else (None, None, None)
             if r["kill_frac"] is not None:
                 # dry run in a copy to learn the number of steps, then the killed run for real
                 dd = d0 + "_dry"
-                shutil.rmtree(dd, ignore_errors=True); shutil.copytree(d0, dd)
+                shutil.rmtree(dd, ignore_errors=True); shutil.copytree(d0, dd, symlinks=True)
                 _, steps, _ = run_write(dd, r["append"], r["final"], r["rows"], 0, r.get("qv", ""))
                 shutil.rmtree(dd, ignore_errors=True)
                 run_write(d0, r["append"], r["final"], r["rows"], max(1, min(steps, 1 + int(r["kill_frac"] * steps))), r.get("qv", ""))
         before = snap(d0)
         dd = d0 + "_dry"
-        shutil.rmtree(dd, ignore_errors=True); shutil.copytree(d0, dd)
+        shutil.rmtree(dd, ignore_errors=True); shutil.copytree(d0, dd, symlinks=True)
         _, steps, q = run_write(dd, h["last"]["append"], h["last"]["final"], h["last"]["rows"], 0, h["last"].get("qv", ""))
         full = snap(dd)
         shutil.rmtree(dd, ignore_errors=True)
         res = []
         for k in range(1, steps + 2):      # steps+1 = no kill
             dk = os.path.join(base, "h%04d_k%d" % (hi, k))
-            shutil.rmtree(dk, ignore_errors=True); shutil.copytree(d0, dk)
+            shutil.rmtree(dk, ignore_errors=True); shutil.copytree(d0, dk, symlinks=True)
             _, _, qk = run_write(dk, h["last"]["append"], h["last"]["final"], h["last"]["rows"], k if k <= steps else 0, h["last"].get("qv", ""))
             after = snap(dk)
             # one more complete run of the same kind on top (append header rule / recovery)
@@ -127,13 +137,17 @@ def run_impl(cases, tier):
         _, steps, _ = run_write(d, False, True, rows, 0)
         shutil.rmtree(d, ignore_errors=True)
         for k in range(1, (steps or 0) + 1):
-            dk = os.path.join(base, "conc%d_k%d" % (ci, k))
-            shutil.rmtree(dk, ignore_errors=True); os.makedirs(dk)
-            q = 'select g,count(x) from . group by g order by count(x) outfile "out.csv"' 
-            p = subprocess.run([EXE, "outfile", "--query", q, "--rows", json.dumps(rows), "--concurrent", str(k)], capture_output=True, cwd=dk, timeout=60)
-            expanded.append({"concurrent": k, "rows": rows, "steps": steps})
-            obs.append({"after": snap(dk), "stdout": p.stdout.decode("utf-8", "replace")[-300:], "rc": p.returncode})
-            shutil.rmtree(dk, ignore_errors=True)
+            for noncum in (False, True):
+                # cumulative client: the final write is held while an interim report fires; non-cumulative client (continuous
+                # job): its periodic writer is held while the last connection ends and Start returns
+                dk = os.path.join(base, "conc%d_k%d_%d" % (ci, k, noncum))
+                shutil.rmtree(dk, ignore_errors=True); os.makedirs(dk)
+                q = 'select g,count(x) from . group by g order by count(x) outfile "out.csv"'
+                p = subprocess.run([EXE, "outfile", "--query", q, "--rows", json.dumps(rows), "--concurrent", str(k)] + (["--noncumulative"] if noncum else []),
+                                   capture_output=True, cwd=dk, timeout=60)
+                expanded.append({"concurrent": k, "rows": rows, "steps": steps, "noncumulative": noncum})
+                obs.append({"after": snap(dk), "stdout": p.stdout.decode("utf-8", "replace")[-300:], "rc": p.returncode})
+                shutil.rmtree(dk, ignore_errors=True)
     cases[:] = expanded
     return obs
 
@@ -157,8 +171,9 @@ def judge(cases, obs, tier):
             if o["rc"] != 0 or "CONCURRENT-DONE" not in o["stdout"]:
                 errors.append("concurrent run failed: %s" % o["stdout"])
             elif out != want:
-                oracle[i] = ("final result written while an interim report fired (final writer held before step %d of %d): the outfile holds %r, "
-                             "the complete result is %r") % (c["concurrent"], c["steps"], out, want)
+                oracle[i] = ("%s (writer held before step %d of %d): the outfile holds %r, the complete result is %r") % (
+                    "periodic result of a non-cumulative client written while the client ended" if c.get("noncumulative") else "final result written while an interim report fired",
+                    c["concurrent"], c["steps"], out, want)
             continue
         before, after = {k: hx(v) for k, v in o["before"].items()}, {k: hx(v) for k, v in o["after"].items()}
         complete = HEADER + rows_bytes(c["rows"])
